@@ -130,6 +130,8 @@ func main() {
 	txScenario(rep, layout)
 	replicaScenario(rep, "rollback", layout)
 	replicaScenario(rep, "wal", layout)
+	replicaHaltCatchUpScenario(rep, "rollback", layout)
+	replicaHaltCatchUpScenario(rep, "wal", layout)
 
 	rep.Finish()
 }
@@ -159,6 +161,9 @@ func replayFile(rep *core.Report, path string, layout sim.Layout) {
 		return
 	case "replica-apply":
 		replicaScenario(rep, f.Replay.Mode, layout)
+		return
+	case "replica-halt-catch-up":
+		replicaHaltCatchUpScenario(rep, f.Replay.Mode, layout)
 		return
 	case "shm-close":
 		shmCloseScenario(rep, layout)
